@@ -637,8 +637,8 @@ func (t *Table) Update(input *types.UpdateItemInput) (map[string]*types.Item, er
 	}
 
 	oldItem := copyItem(item)
-	// work on a copy, the stored item must not change when the update fails
-	item = copyItem(item)
+	// work on a deep copy, the stored item must not change when the update fails
+	item = deepCopyItem(item)
 
 	err = t.interpreterUpdate(interpreter.UpdateInput{
 		TableName:  t.Name,
